@@ -61,6 +61,10 @@ def run_one(prog, models, root, shape, prefix=(), concrete=None, stats=None, tra
         outcome = ('unsupported', '%s (in %s)' % (e, where))
     except RecursionError:
         outcome = ('unsupported', 'python recursion limit')
+    sc = I.model_state.get('sched')
+    if sc is not None:
+        sc.shutdown()
+        ctx.sched_stats = (sc.points, sc.switches, sc.preemptions, len(sc.threads))
     if outcome[0] == 'ok' and sample_model:
         ctx.sample_model = ctx.any_model_values()
     ctx.close()
